@@ -39,7 +39,7 @@ def main():
                 if p.returncode != 0:
                     print(json.dumps({"seed": sd, "property": prop, "verdict": "patch-failed", "msg": p.stdout[-200:] + p.stderr[-200:]}))
                     continue
-                env = dict(os.environ, PYTHONPATH=f"{ROOT}:{tmp}/src", PYTHONHASHSEED="0", XSM_OUT_DIR=os.path.join(tmp, "out"))
+                env = dict(os.environ, PYTHONPATH=f"{ROOT}:{tmp}/src", PYTHONHASHSEED="0", XSM_OUT_DIR=os.path.join(tmp, "out"), XSM_VERDICT_ONLY="1")
                 t0 = time.time()
                 r = subprocess.run([sys.executable, "-m", "xsmverif.run", prop, "--tier", a.tier], cwd=ROOT, env=env, capture_output=True, text=True, timeout=7200)
                 tags = [l.strip()[:220] for l in r.stdout.splitlines() if l.startswith("  tag=")][:4]
